@@ -61,7 +61,9 @@ macro_rules! pi {
 		pi!(@s; $o: $($t)*);
 	}};
 	(@s; $o:ident: string($e:expr $(,)?) $($t:tt)*) => {{
-		$o.push_string($e);
+		// Token text is not under our control (e.g. malformed tokens of a broken input may
+		// contain tabs and newlines), dprint wants those to be signalled separately
+		$o.extend(dprint_core::formatting::ir_helpers::gen_from_raw_string(&$e));
 		pi!(@s; $o: $($t)*);
 	}};
 	(@s; $o:ident: nl $($t:tt)*) => {{
